@@ -9,6 +9,7 @@ KIND = "shell"
 SPECS = ["C01"]
 THEOREMS = ["Tty.echo_length_noctl", "Tty.echo_length_ctl", "C01Q.posixWords_escape", "C01Q.spec_holds", "C01.exec_exact", "C01.exec_exact_gen", "C01.execSeq_exact", "C01.exec0_exact", "C01.test_exact", "C01.exec_rejects", "C01.exec_app", "C01.read_some_app", "C01.readUntilPrompt_app", "C01.read_local", "C01.rup_local", "C01.sendline_exact", "C01.parseInt_status", "C01.status_table", "C01.specCmd_runCmd", "C01.specCmd_runCmd_sum", "C01.spec_holds"]
 LEAN_MODULES = ["TbotVerif.Props.Tty", "TbotVerif.Props.C01Q", "TbotVerif.Props.C01"]
+AUX = ["C01Q"]   # quoting layer: real Bash.escape/Ash.escape vs the Lean model, splitter vs real bash/dash
 QUICK_N, THOROUGH_N = 700, 20000
 QUICK_BUDGET, THOROUGH_BUDGET = 45, 1500
 CASE_WALL = 25
